@@ -293,7 +293,10 @@ func c10IssuePathScenario(x *mc.X) *mc.Outcome {
 	// 0 root test, 1 field test, 2 required, 3 slice element test; 4..8: a PASSING test carries the IssuePath and an
 	// issue that belongs to no test (PostTransform error, required) arises on the same node, on a sibling, on the
 	// record, or in a later call: it must be keyed by its own node's path
-	where := x.Choose(9, "where")
+	where := x.Choose(13, "where")
+	if where >= 9 {
+		return c10IssuePathNested(x, where-9)
+	}
 	custom := []string{"custom", "a", "deep.path[3]", "l[0]"}[x.Choose(4, "issuePath")]
 	type D struct {
 		A string
@@ -376,6 +379,70 @@ func c10IssuePathScenario(x *mc.X) *mc.Outcome {
 	return out
 }
 
+// IssuePath overrides at depth: the override is the literal path, wherever in the tree the test sits
+// (in a nested record, behind a pointer, in a record that is a list item, in a list inside a nested record).
+func c10IssuePathNested(x *mc.X, where int) *mc.Outcome {
+	mode := x.Choose(2, "mode")
+	custom := []string{"custom", "line1", "deep.path[3]", "lines"}[x.Choose(4, "issuePath")]
+	type Addr struct {
+		Line1 string
+		Lines []string
+	}
+	type D struct {
+		Address Addr
+		Ptr     *Addr
+		List    []Addr
+	}
+	inner := func() *z.StructSchema {
+		return z.Struct(z.Schema{"line1": z.String().Min(5, z.IssuePath(custom)), "lines": z.Slice(z.String().Min(5)).Min(3, z.IssuePath(custom))})
+	}
+	var s *z.StructSchema
+	wantKeys := map[string]int{custom: 2}
+	var data map[string]any
+	d := D{}
+	rec := map[string]any{"line1": "ab", "lines": []any{"long-enough"}}
+	val := Addr{Line1: "ab", Lines: []string{"long-enough"}}
+	switch where {
+	case 0: // nested record
+		s = z.Struct(z.Schema{"address": inner()})
+		data, d.Address = map[string]any{"address": rec}, val
+	case 1: // behind a pointer
+		s = z.Struct(z.Schema{"ptr": z.Ptr(inner())})
+		v := val
+		data, d.Ptr = map[string]any{"ptr": rec}, &v
+	case 2: // a record that is a list item
+		s = z.Struct(z.Schema{"list": z.Slice(inner())})
+		data, d.List = map[string]any{"list": []any{rec}}, []Addr{val}
+	case 3: // required with IssuePath inside a nested record
+		s = z.Struct(z.Schema{"address": z.Struct(z.Schema{"line1": z.String().Required(z.IssuePath(custom)), "lines": z.Slice(z.String()).Required(z.IssuePath(custom))})})
+		data = map[string]any{"address": map[string]any{"line1": "", "lines": nil}}
+	}
+	var m z.ZogIssueMap
+	if mode == 0 {
+		m = s.Parse(data, &d)
+	} else {
+		m = s.Validate(&d)
+	}
+	zh.Reset()
+	gotKeys := map[string]int{}
+	for k, l := range m {
+		if k != "$first" {
+			gotKeys[k] += len(l)
+		}
+	}
+	out := &mc.Outcome{Traces: 1, Nontrivial: true, Sig: fmt.Sprintf("issuepath-nested|%d|%d|%s", mode, where, custom)}
+	out.Sample = map[string]any{"where": where, "issuePath": custom, "keys": fmt.Sprint(gotKeys)}
+	if !reflect.DeepEqual(wantKeys, gotKeys) {
+		x.Note("mode %d, IssuePath(%q) on tests at depth: case %d (0 nested record, 1 behind a pointer, 2 record that is a list item, 3 required inside a nested record)", mode, custom, where)
+		out.Viol = append(out.Viol, &mc.Violation{Key: fmt.Sprintf("C10:issuepath-nested:%d", where), What: "an IssuePath override at depth is not the literal path of exactly its own test", Expected: fmt.Sprint(wantKeys), Observed: fmt.Sprint(gotKeys)})
+		return out
+	}
+	if msg := c10Invariants(m); msg != "" {
+		out.Viol = append(out.Viol, &mc.Violation{Key: "C10:issuepath-invariant", What: msg, Observed: msg})
+	}
+	return out
+}
+
 func c10Items(tier string, mk func(tier string, tags map[string]int, focus []string, deep bool, elems int) mc.Scenario) []Item {
 	var items []Item
 	deep := tier == "thorough"
@@ -404,7 +471,18 @@ func c10Items(tier string, mk func(tier string, tags map[string]int, focus []str
 		deepUnits := skelUnits(recordSkel(FEMap, nil, true), 2)
 		for _, cfg := range []int{2, 3, 7} {
 			tv := uniformTags(df, cfg)
-			for _, fs := range focusSets(deepUnits, 1) {
+			for _, fs := range focusSets(deepUnits, 2) {
+				if len(fs) == 2 {
+					// pairs only along one branch: an inner record (n, n.d) and a node below it, so that a record which is
+					// absent, explicitly empty or of the wrong type meets every configuration of what it contains
+					a, b := strings.SplitN(fs[0], "#", 2)[0], strings.SplitN(fs[1], "#", 2)[0]
+					if len(a) > len(b) {
+						a, b = b, a
+					}
+					if a == "root" || !strings.HasPrefix(b, a+".") {
+						continue
+					}
+				}
 				items = append(items, Item{Name: fmt.Sprintf("deep-record/uniform%d/focus{%s}", cfg, strings.Join(fs, ",")), MaxDevs: -1, Run: mk(tier, tv, fs, true, 2)})
 			}
 		}
@@ -426,7 +504,7 @@ func c10Items(tier string, mk func(tier string, tags map[string]int, focus []str
 func init() {
 	Register(&Prop{
 		ID:    "C10",
-		Rule:  "one execution = one record case: record schema Struct{s,i,l:[]string,n:Struct{s2,b2[,d:Struct{s3,i3}]}} × struct-tag assignment (per field none | zog | source | both | source with [] suffix | foreign tags whose key ends in the source tag name | zog tag containing a comma | (uniform only) renamed to a sibling's schema key; ≤2 fields deviating × ≤1 focus unit, and the seven uniform assignments × ≤2 focus units) × front end {Go map, zjson, zhttp JSON, zhttp JSON of unknown length, form, query, env} (+Validate for Go values) × focus units over Required × tests × input classes × identity and reversed field visit order at every struct visit (both relative orders of any two fields); oracle: issue keys/paths == documented key chain, map invariants, $first == first recorded issue, sanitizers; plus IssuePath overrides at root/field/required/element tests, and IssuePath on a passing test next to PostTransform errors / required issues of the same node, a sibling, the record, or a later call; non-trivial = every expressible case; distinct = distinct (front end, mode, tags, expected issues). plus, for sequences whose first call parses the record through a front end (its result kept, or handed back through Collect* / Sanitize*AndCollect), " + callsRule,
+		Rule:  "one execution = one record case: record schema Struct{s,i,l:[]string,n:Struct{s2,b2[,d:Struct{s3,i3}]}} × struct-tag assignment (per field none | zog | source | both | source with [] suffix | foreign tags whose key ends in the source tag name | zog tag containing a comma | (uniform only) renamed to a sibling's schema key; ≤2 fields deviating × ≤1 focus unit, and the seven uniform assignments × ≤2 focus units) × front end {Go map, zjson, zhttp JSON, zhttp JSON of unknown length, form, query, env} (+Validate for Go values) × focus units over Required × tests × input classes × identity and reversed field visit order at every struct visit (both relative orders of any two fields); oracle: issue keys/paths == documented key chain, map invariants, $first == first recorded issue, sanitizers; plus IssuePath overrides at root/field/required/element tests and at depth (nested record, behind a pointer, record that is a list item), and IssuePath on a passing test next to PostTransform errors / required issues of the same node, a sibling, the record, or a later call; non-trivial = every expressible case; distinct = distinct (front end, mode, tags, expected issues). plus, for sequences whose first call parses the record through a front end (its result kept, or handed back through Collect* / Sanitize*AndCollect), " + callsRule,
 		Floor: 50,
 		Bound: func(tier string) string {
 			if tier == "thorough" {
